@@ -47,23 +47,6 @@ func runC15(c *Ctx) {
 	c.guard("R15-hard", func() { c15Hard(c, limits, enforce) })
 }
 
-// edgeGuards lists the branch edges that every path to b must take (edge dominance), nearest first.
-func edgeGuards(b *ssa.BasicBlock) []guardEdge {
-	var res []guardEdge
-	cur := b
-	for d := cur.Idom(); d != nil; d = d.Idom() {
-		if ifi, ok := d.Instrs[len(d.Instrs)-1].(*ssa.If); ok && len(d.Succs) == 2 && d.Succs[0] != d.Succs[1] {
-			switch {
-			case onEdge(d, 0, cur):
-				res = append(res, guardEdge{ifi.Cond, true})
-			case onEdge(d, 1, cur):
-				res = append(res, guardEdge{ifi.Cond, false})
-			}
-		}
-	}
-	return res
-}
-
 // callBehind finds the call (static callee or interface method named name) a value is computed
 // from, looking through conversions and tuple extraction.
 func callBehind(v ssa.Value, name string) *ssa.Call {
